@@ -435,6 +435,33 @@ func TestCheck(t *testing.T) {
 			}
 		}(i)
 	}
+	// failed attempts of sibling goroutines on the holder's own Locker (real clock, short lease)
+	for i := 0; i < run.Pick(3, 12); i++ {
+		twg.Add(1)
+		go func(i int) {
+			defer twg.Done()
+			L := []time.Duration{400 * time.Millisecond, 300 * time.Millisecond, 600 * time.Millisecond}[i%3]
+			for attempt := 1; ; attempt++ {
+				o := locktap.SiblingAttemptVsHolder(L)
+				run.Max("canary_worst_stall_us", int64(o.Stall/time.Microsecond))
+				if o.Sig != "" && o.TimeBound && o.Stall > L/8 {
+					if attempt < 3 {
+						run.Add("takeover_repeated_because_of_a_stall", 1)
+						continue
+					}
+					run.Inconclusive(fmt.Sprintf("sibling-attempt-vs-holder: %s (canary stall %v)", o.What, o.Stall))
+					return
+				}
+				run.Eval(1)
+				run.Add("sibling_attempt_vs_holder_scenarios", 1)
+				run.DistinctStr(fmt.Sprint("sibling-attempt-vs-holder", L))
+				if o.Sig != "" {
+					run.Violation("lock/two-holders", "real clock: "+o.What, map[string]any{"mode": "sibling-attempt-vs-holder", "lease": L.String()})
+				}
+				return
+			}
+		}(i)
+	}
 	defer twg.Wait()
 
 	// free-running
